@@ -1653,6 +1653,27 @@ where
         }
 
         let packet_id_opt = packet.packet_id();
+
+        // Check receive_maximum for sending (QoS 1 and 2 packets) before any topic alias
+        // is registered, so that a refused packet leaves no binding behind
+        if packet.qos() == Qos::AtLeastOnce || packet.qos() == Qos::ExactlyOnce {
+            if let Some(max) = self.publish_send_max {
+                if self.publish_send_count >= max {
+                    events.push(GenericEvent::NotifyError(MqttError::ReceiveMaximumExceeded));
+                    if let Some(packet_id) = packet_id_opt {
+                        if self.pid_man.is_used_id(packet_id) {
+                            self.pid_man.release_id(packet_id);
+                            self.store.erase_publish(packet_id);
+                            self.pid_puback.remove(&packet_id);
+                            self.pid_pubrec.remove(&packet_id);
+                            events.push(GenericEvent::NotifyPacketIdReleased(packet_id));
+                        }
+                    }
+                    return events;
+                }
+            }
+        }
+
         let ta_opt = Self::get_topic_alias_from_props(packet.props());
         if packet.topic_name().is_empty() {
             // process manually provided TopicAlias
@@ -1677,8 +1698,11 @@ where
                     packet.topic_name(),
                     ta
                 );
-                if let Some(ref mut topic_alias_send) = self.topic_alias_send {
-                    topic_alias_send.insert_or_update(packet.topic_name(), ta);
+                if self.status == ConnectionStatus::Connected {
+                    // The peer learns the binding only from a packet that is sent now
+                    if let Some(ref mut topic_alias_send) = self.topic_alias_send {
+                        topic_alias_send.insert_or_update(packet.topic_name(), ta);
+                    }
                 }
             } else {
                 events.push(GenericEvent::NotifyError(MqttError::PacketNotAllowedToSend));
@@ -1724,24 +1748,11 @@ where
             }
         }
 
-        // Check receive_maximum for sending (QoS 1 and 2 packets)
-        if packet.qos() == Qos::AtLeastOnce || packet.qos() == Qos::ExactlyOnce {
-            if let Some(max) = self.publish_send_max {
-                if self.publish_send_count >= max {
-                    events.push(GenericEvent::NotifyError(MqttError::ReceiveMaximumExceeded));
-                    if let Some(packet_id) = packet_id_opt {
-                        if self.pid_man.is_used_id(packet_id) {
-                            self.pid_man.release_id(packet_id);
-                            self.store.erase_publish(packet_id);
-                            self.pid_puback.remove(&packet_id);
-                            self.pid_pubrec.remove(&packet_id);
-                            events.push(GenericEvent::NotifyPacketIdReleased(packet_id));
-                        }
-                    }
-                    return events;
-                }
-                self.publish_send_count += 1;
-            }
+        // Count the packet against receive_maximum (checked above)
+        if (packet.qos() == Qos::AtLeastOnce || packet.qos() == Qos::ExactlyOnce)
+            && self.publish_send_max.is_some()
+        {
+            self.publish_send_count += 1;
         }
 
         if self.status == ConnectionStatus::Connected {
